@@ -98,6 +98,8 @@ func c17Run(t *testing.T, in c17In) (res []c17Ans) {
 			res = append(res, c17Ans{T: "allowed", B: g.InterceptPeerDial(id)})
 		case "secured":
 			res = append(res, c17Ans{T: "allowed", B: g.InterceptSecured(network.DirInbound, id, nil)})
+		case "secured-out": // a dial that was already under way when the block landed completes
+			res = append(res, c17Ans{T: "allowed", B: g.InterceptSecured(network.DirOutbound, id, nil)})
 		case "list":
 			ids := []int{}
 			for _, bp := range s.BlockedPeers() {
@@ -135,7 +137,7 @@ func TestVerifC17(t *testing.T) {
 	const S = int64(time.Second)
 	probe := func(ops []c17Op, id int) []c17Op {
 		return append(ops, c17Op{T: "query", ID: id}, c17Op{T: "dial", ID: id}, c17Op{T: "secured", ID: id},
-			c17Op{T: "list", IDs: []int{0, 1, 2}})
+			c17Op{T: "secured-out", ID: id}, c17Op{T: "list", IDs: []int{0, 1, 2}})
 	}
 	// exhaustive: up to 3 placements on one id (durations 0/10s/30s, gaps 0/5s/20s), then probes
 	// every 5 s at offsets that are never an expiry instant
@@ -217,7 +219,7 @@ func TestVerifC17(t *testing.T) {
 			case r < 80:
 				ops = append(ops, c17Op{T: "dial", ID: rng.intn(4)})
 			case r < 90:
-				ops = append(ops, c17Op{T: "secured", ID: rng.intn(4)})
+				ops = append(ops, c17Op{T: []string{"secured", "secured-out"}[rng.intn(2)], ID: rng.intn(4)})
 			default:
 				ops = append(ops, c17Op{T: "list", IDs: []int{0, 1, 2, 3}})
 			}
